@@ -226,8 +226,158 @@ pub fn swap_case(c: char) -> char {
     crate::uoracle::case_partner(c).unwrap_or(c)
 }
 
-/// random input of length 0..=maxlen, 70 % from the pattern's own alphabet (and case counterparts)
+/// a string that one path through the pattern matches (random choices at alternations and
+/// quantifiers); characters for classes / escapes are drawn from `cands`
+pub fn sample_match(rng: &mut Rng, n: &Node, cands: &[char], groups: &mut Vec<String>, out: &mut String) {
+    let pick_char = |rng: &mut Rng, f: &dyn Fn(char) -> bool| -> Option<char> {
+        let start = rng.below(cands.len().max(1));
+        (0..cands.len()).map(|k| cands[(start + k) % cands.len()]).find(|c| f(*c))
+    };
+    match n {
+        Node::Empty | Node::Bol | Node::Eol => {}
+        Node::Char(c) => out.push(*c),
+        Node::Dot => out.push(pick_char(rng, &|c| c != '\n' && c != '\r').unwrap_or('a')),
+        Node::Esc(e) => {
+            if let Some(c) = pick_char(rng, &|c| crate::uoracle::esc_match(*e, c)) {
+                out.push(c)
+            }
+        }
+        Node::Prop(p, name) => {
+            if let Some(c) = pick_char(rng, &|c| crate::uoracle::prop_match(*p, name, c).unwrap_or(false)) {
+                out.push(c)
+            }
+        }
+        Node::Class(ce) => {
+            if let Some(c) = pick_char(rng, &|c| crate::refmodel::class_match(ce, c, false)) {
+                out.push(c)
+            }
+        }
+        Node::Group(b) => {
+            let idx = groups.len();
+            groups.push(String::new());
+            let st = out.len();
+            sample_match(rng, b, cands, groups, out);
+            groups[idx] = out[st..].to_string();
+        }
+        Node::NcGroup(b) => sample_match(rng, b, cands, groups, out),
+        Node::Cat(v) => {
+            for x in v {
+                sample_match(rng, x, cands, groups, out)
+            }
+        }
+        Node::Alt(v) => {
+            let k = rng.below(v.len());
+            // groups of the branches not taken still get their numbers
+            for (i, x) in v.iter().enumerate() {
+                if i == k {
+                    sample_match(rng, x, cands, groups, out)
+                } else {
+                    for _ in 0..x.count_groups() {
+                        groups.push(String::new())
+                    }
+                }
+            }
+        }
+        Node::Repeat { body, min, max, .. } => {
+            let hi = max.unwrap_or(min + 3).min(min + 3);
+            let k = min + rng.below(hi - min + 1);
+            let ng = body.count_groups();
+            let base = groups.len();
+            for _ in 0..ng {
+                groups.push(String::new())
+            }
+            for _ in 0..k.min(6) {
+                let mut g2: Vec<String> = groups[..base].to_vec();
+                sample_match(rng, body, cands, &mut g2, out);
+                for (i, t) in g2.into_iter().enumerate().skip(base) {
+                    if i < groups.len() {
+                        groups[i] = t
+                    }
+                }
+            }
+        }
+        Node::Backref(k) => {
+            if let Some(t) = groups.get(k - 1) {
+                out.push_str(&t.clone())
+            }
+        }
+    }
+}
+
+/// input derived from a sampled match: the match itself, or a near miss of it (a piece dropped or
+/// doubled, junk inserted in the middle, the match followed by junk and a second partial match)
+pub fn gen_matching_input(rng: &mut Rng, node: &Node, extra: &[char], maxlen: usize) -> String {
+    let mut own = vec![];
+    node.alphabet(&mut own);
+    let mut cands: Vec<char> = own.clone();
+    cands.extend_from_slice(extra);
+    cands.extend(['a', 'b', '1', ' ', 'A']);
+    let mut groups = vec![];
+    let mut m = String::new();
+    sample_match(rng, node, &cands, &mut groups, &mut m);
+    let mc: Vec<char> = m.chars().collect();
+    let junk = |rng: &mut Rng| -> String { (0..1 + rng.below(2)).map(|_| *rng.pick(&cands)).collect() };
+    let mut s: Vec<char> = match rng.below(8) {
+        0 | 1 => mc.clone(),
+        2 => {
+            // junk before and after
+            let mut v: Vec<char> = junk(rng).chars().collect();
+            v.extend(&mc);
+            v.extend(junk(rng).chars());
+            v
+        }
+        3 if !mc.is_empty() => {
+            // drop one character
+            let mut v = mc.clone();
+            v.remove(rng.below(mc.len()));
+            v
+        }
+        4 if !mc.is_empty() => {
+            // split the match, put junk in between, and repeat the tail once more
+            let cut = rng.below(mc.len() + 1);
+            let mut v: Vec<char> = mc[..cut].to_vec();
+            v.extend(junk(rng).chars());
+            v.extend(&mc[cut..]);
+            v
+        }
+        5 if !mc.is_empty() => {
+            // the match, junk, then its tail again (a later occurrence of the continuation)
+            let cut = rng.below(mc.len());
+            let mut v = mc.clone();
+            v.extend(junk(rng).chars());
+            v.extend(&mc[cut..]);
+            v
+        }
+        6 => {
+            // two matches back to back
+            let mut m2 = String::new();
+            let mut g2 = vec![];
+            sample_match(rng, node, &cands, &mut g2, &mut m2);
+            let mut v = mc.clone();
+            v.extend(m2.chars());
+            v
+        }
+        _ => {
+            // double one character
+            let mut v = mc.clone();
+            if !v.is_empty() {
+                let i = rng.below(v.len());
+                let c = v[i];
+                v.insert(i, c);
+            }
+            v
+        }
+    };
+    s.truncate(maxlen.max(4) + 4);
+    s.into_iter().collect()
+}
+
+/// random input of length 0..=maxlen: half of the time derived from a sampled match of the pattern
+/// (see gen_matching_input), otherwise 70 % from the pattern's own alphabet (and case counterparts)
 pub fn gen_input(rng: &mut Rng, node: &Node, extra: &[char], maxlen: usize) -> String {
+    if rng.chance(1, 2) {
+        return gen_matching_input(rng, node, extra, maxlen);
+    }
     let mut own = vec![];
     node.alphabet(&mut own);
     let mut pool: Vec<char> = own.clone();
@@ -468,6 +618,31 @@ fn gen_shortcut_raw(rng: &mut Rng, cfg: &GenCfg) -> Node {
             Node::Cat(vec![quant(rng, Node::Group(Box::new(s1))), single(rng), tail(rng)])
         }
     }
+}
+
+/// line-oriented shapes for flag m: ^ body terminator, where the terminator may consume the
+/// newline, so that the next match starts exactly where the previous one ended
+pub fn gen_line_shape(rng: &mut Rng, alpha: &[char]) -> Node {
+    let ch = |rng: &mut Rng| Node::Char(*rng.pick(alpha));
+    let body = match rng.below(5) {
+        0 => ch(rng),
+        1 => Node::Repeat { body: Box::new(Node::Dot), min: rng.below(2), max: None, greedy: rng.chance(2, 3), spell: 0 },
+        2 => Node::Repeat { body: Box::new(Node::Esc('S')), min: 1, max: None, greedy: true, spell: 0 },
+        3 => Node::Cat(vec![ch(rng), Node::Repeat { body: Box::new(ch(rng)), min: 0, max: None, greedy: true, spell: 0 }]),
+        _ => Node::Group(Box::new(Node::Repeat { body: Box::new(Node::Esc('w')), min: 1, max: None, greedy: true, spell: 0 })),
+    };
+    let term = match rng.below(6) {
+        0 | 1 => Node::Char('\n'),
+        2 => Node::Esc('s'),
+        3 => Node::Cat(vec![Node::Eol, Node::Char('\n')]),
+        4 => Node::Repeat { body: Box::new(Node::Char('\n')), min: 0, max: Some(1), greedy: true, spell: 0 },
+        _ => Node::Eol,
+    };
+    let mut v = vec![Node::Bol, body, term];
+    if rng.chance(1, 4) {
+        v.insert(0, Node::Group(Box::new(Node::Empty)));
+    }
+    Node::Cat(v)
 }
 
 // ---------- hostile strings ----------
